@@ -129,7 +129,8 @@ def seeded(argv):
             shutil.rmtree(root, ignore_errors=True)
     if not only:  # a filtered run must not overwrite the record of the full one
         kernel.write_json(os.path.join(VERIF_ROOT, "selftest_seeded.json"), {"rows": rows, "missed": bad})
-    print(f"seeded: {len(rows) - bad}/{len(rows)} kept changes detected")
+    known = sum(1 for r in rows if "documented_miss" in r)
+    print(f"seeded: {len(rows) - bad - known}/{len(rows)} kept changes detected, {known} documented miss(es), {bad} missed")
     return 0 if bad == 0 else 1
 
 
